@@ -70,6 +70,7 @@ func runC12(c *Ctx) {
 		c.Fail("EXCLUDE-SELF-ONLY", "anchor", token.NoPos, "bufimageutil not found")
 		return
 	}
+	c12IndexRemap(c, pk)
 	info := pk.TypesInfo
 	excluded := pk.Types.Scope().Lookup("inclusionModeExcluded")
 	if excluded == nil {
@@ -77,6 +78,7 @@ func runC12(c *Ctx) {
 		return
 	}
 	// (1)
+	mapEntryGuards := 0
 	for _, fr := range p.FuncsOf(pk) {
 		// self objects: the descriptor parameter(s) of namedDescriptor-ish type, type-switch bindings of them, range values over their Get*() children
 		self := map[types.Object]string{}
@@ -148,6 +150,28 @@ func runC12(c *Ctx) {
 				c.Ob("EXCLUDE-SELF-ONLY", inst, as.Pos(), true, true, "excluded element is %s", why)
 				return true
 			}
+			// reviewed idiom (F22): the synthetic map-entry message of a map field is part of that field, not a type the
+			// user named; it is excluded under a guard `if isMapEntry…(sameElement, …)` whose callee tests GetMapEntry()
+			if ifs := enclosingIf(p, as); ifs != nil {
+				if gc, ok := ast.Unparen(ifs.Cond).(*ast.CallExpr); ok && len(gc.Args) >= 1 && exprString(gc.Args[0]) == exprString(ix.Index) {
+					if gfn := Callee(info, gc); gfn != nil {
+						if gfr := p.DeclOf(gfn); gfr != nil && gfr.Decl.Body != nil {
+							tests := false
+							ast.Inspect(gfr.Decl.Body, func(m ast.Node) bool {
+								if se, ok := m.(*ast.SelectorExpr); ok && se.Sel.Name == "GetMapEntry" {
+									tests = true
+								}
+								return true
+							})
+							if tests {
+								mapEntryGuards++
+								c.Ob("EXCLUDE-SELF-ONLY", inst, as.Pos(), true, true, "excluded element is the synthetic map entry of the field being processed (guarded by %s, which tests GetMapEntry())", gfn.Name())
+								return true
+							}
+						}
+					}
+				}
+			}
 			// a selector on an index-lookup result (info.element) is a referenced element
 			desc := "an element that is neither the processed descriptor nor one of its children"
 			if se, ok := ix.Index.(*ast.SelectorExpr); ok && namedName(info.TypeOf(se.X)) == "elementInfo" {
@@ -157,6 +181,13 @@ func runC12(c *Ctx) {
 			return true
 		})
 	}
+
+	// (1b) MAP-ENTRY-WHOLE (added after finding F22): the rewriter drops individual fields whose type is excluded; a map
+	// entry must never lose one of its two fields, so somewhere the closure has to exclude the whole entry (and with it
+	// the map field) under a GetMapEntry() test
+	c.Rule("MAP-ENTRY-WHOLE", "a map entry whose key or value type is excluded is excluded as a whole", 1)
+	c.Ob("MAP-ENTRY-WHOLE", "closure/map-entry-excluded-as-unit", token.NoPos, mapEntryGuards >= 1, true,
+		"%d exclusion store(s) guarded by a GetMapEntry() test: without one, excluding a map's value type leaves a one-field map entry and the image no longer links", mapEntryGuards)
 
 	// (2) append-only maps
 	c12AppendOnly(c, pk)
@@ -466,4 +497,74 @@ func c12CopyMode(c *Ctx, pk *packages.Package) {
 		c.Ob("COPY-MODE", "image_filter.go/no-direct-stores-2", token.NoPos, true, false, "-")
 		c.Ob("COPY-MODE", "image_filter.go/no-direct-stores-3", token.NoPos, true, false, "-")
 	}
+}
+
+// index-valued descriptor fields and the list they index (descriptor.proto)
+var c12IndexRefs = []struct{ Owner, Index, ListOwner, List, Why string }{
+	{"FieldDescriptorProto", "OneofIndex", "DescriptorProto", "OneofDecl", "FieldDescriptorProto.oneof_index is an index into the containing message's oneof_decl"},
+	{"FileDescriptorProto", "PublicDependency", "FileDescriptorProto", "Dependency", "public_dependency holds indexes into dependency"},
+	{"FileDescriptorProto", "WeakDependency", "FileDescriptorProto", "Dependency", "weak_dependency holds indexes into dependency"},
+}
+
+// c12IndexRemap (INDEX-REMAP, added after finding F21): a descriptor list that the rewriter can shorten is referenced
+// by index from elsewhere in the descriptor; whenever the package stores a rebuilt list it must also store the
+// referring index field, or surviving references point past the end (the image no longer links) or at the wrong
+// element. Decided as a who-must-write obligation: a non-nil store to <ListOwner>.<List> anywhere in bufimageutil
+// demands a non-nil store to <Owner>.<Index>.
+func c12IndexRemap(c *Ctx, pk *packages.Package) {
+	const rule = "INDEX-REMAP"
+	c.Rule(rule, "a rebuilt descriptor list is accompanied by a rewrite of the index fields that refer to it", 3)
+	p := c.P
+	info := pk.TypesInfo
+	stores := map[string][]token.Pos{} // "Owner.Field" -> positions of non-nil stores
+	for _, fr := range p.FuncsOf(pk) {
+		if fr.Decl.Body == nil {
+			continue
+		}
+		ast.Inspect(fr.Decl.Body, func(n ast.Node) bool {
+			as, ok := n.(*ast.AssignStmt)
+			if !ok {
+				return true
+			}
+			for i, l := range as.Lhs {
+				sel, ok := ast.Unparen(l).(*ast.SelectorExpr)
+				if !ok {
+					continue
+				}
+				owner := namedName(info.TypeOf(sel.X))
+				if owner == "" {
+					continue
+				}
+				if i < len(as.Rhs) && isNilIdent(info, as.Rhs[i]) {
+					continue
+				}
+				stores[owner+"."+sel.Sel.Name] = append(stores[owner+"."+sel.Sel.Name], as.Pos())
+			}
+			return true
+		})
+	}
+	for _, r := range c12IndexRefs {
+		list := stores[r.ListOwner+"."+r.List]
+		idx := stores[r.Owner+"."+r.Index]
+		if len(list) == 0 {
+			c.Ob(rule, r.Owner+"."+r.Index, token.NoPos, true, false, "%s.%s is never rebuilt by the package; nothing to remap", r.ListOwner, r.List)
+			continue
+		}
+		c.Ob(rule, r.Owner+"."+r.Index, list[0], len(idx) > 0, true,
+			"%s: the package rebuilds %s.%s (%d store(s)) and rewrites %s.%s (%d store(s))", r.Why, r.ListOwner, r.List, len(list), r.Owner, r.Index, len(idx))
+	}
+}
+
+
+// enclosingIf returns the innermost if statement whose body contains n.
+func enclosingIf(p *Prog, n ast.Node) *ast.IfStmt {
+	for q := p.Parent(n); q != nil; q = p.Parent(q) {
+		if ifs, ok := q.(*ast.IfStmt); ok && containsNode(ifs.Body, n) {
+			return ifs
+		}
+		if _, ok := q.(*ast.FuncDecl); ok {
+			return nil
+		}
+	}
+	return nil
 }
